@@ -25,3 +25,16 @@ package components
 //@   loop 0 invariant stable: p == old(p) && p.params == old(p.params) && p.outParamPorts == old(p.outParamPorts) && p.outParamPorts["out"] == old(p.outParamPorts["out"]) && wfSrcParamOut(p.BaseProcess, "out")
 //@   loop 0 invariant so-far: poutN[p.outParamPorts["out"]] == old(poutN[p.outParamPorts["out"]]) + $i && (forall j int :: 0 <= j && j < $i ==> poutAt[p.outParamPorts["out"]][old(poutN[p.outParamPorts["out"]]) + j] == p.params[j])
 //@   loop 0 invariant earlier: forall j int :: 0 <= j && j < old(poutN[p.outParamPorts["out"]]) ==> poutAt[p.outParamPorts["out"]][j] == old(poutAt[p.outParamPorts["out"]][j])
+
+//@ func (*FileSource).Out(p) (res)
+//@   props C19
+//@   ensures def: "out" in p.outPorts && res == p.outPorts["out"]
+
+//@ func (*FileSource).Run(p)
+//@   props C19
+//@   requires wf: wfSrcOut(p.BaseProcess, "out")
+//@   modifies *
+//@   ensures emits-one-ip-per-given-path-in-order[C19]: outN[old(p.outPorts["out"])] == old(outN[p.outPorts["out"]]) + len(old(p.filePaths)) && (forall j int :: 0 <= j && j < len(old(p.filePaths)) ==> outAt[old(p.outPorts["out"])][old(outN[p.outPorts["out"]]) + j] != nil && outAt[old(p.outPorts["out"])][old(outN[p.outPorts["out"]]) + j].path == old(p.filePaths)[j])
+//@   loop 0 invariant range: 0 <= $i && $i <= len(p.filePaths)
+//@   loop 0 invariant stable: p == old(p) && p.filePaths == old(p.filePaths) && p.outPorts == old(p.outPorts) && p.outPorts["out"] == old(p.outPorts["out"]) && wfSrcOut(p.BaseProcess, "out")
+//@   loop 0 invariant so-far: outN[p.outPorts["out"]] == old(outN[p.outPorts["out"]]) + $i && (forall j int :: 0 <= j && j < $i ==> outAt[p.outPorts["out"]][old(outN[p.outPorts["out"]]) + j] != nil && allocated(outAt[p.outPorts["out"]][old(outN[p.outPorts["out"]]) + j]) && outAt[p.outPorts["out"]][old(outN[p.outPorts["out"]]) + j].path == p.filePaths[j])
